@@ -105,6 +105,29 @@ def subdir_matrix_project() -> T.Dict[str, T.Any]:
     return projgen.normalize({'name': 'sdm', 'lang': '', 'installs': installs})
 
 
+def preserve_path_project() -> T.Dict[str, T.Any]:
+    """install_data / install_headers with preserve_path: true and sources in nested directories (the same
+    basename in several of them), default / plain / option-derived install_dir, main project and subproject."""
+    installs = []
+    k = 0
+    for sp in ('', 'sp1'):
+        for kind, ext, opt in (('data', 'txt', 'datadir'), ('headers', 'h', 'includedir')):
+            for how in ('default', 'plain', 'option'):
+                k += 1
+                it: T.Dict[str, T.Any] = {'kind': kind, 'sp': sp, 'preserve': True, 'subdir': '' if k % 2 else 'dd',
+                                          'files': [f'b{k}.{ext}', f'one/b{k}.{ext}', f'one/two/b{k}.{ext}', f'one/two/c{k}.{ext}']}
+                if how == 'plain':
+                    it['install_dir'] = f'share/demo-tree{k}'
+                elif how == 'option' and kind == 'data':
+                    it['install_dir'] = '{%s}/demo-tree%d' % (opt, k)
+                    it['dir_expr'] = f"get_option('{opt}') / 'demo-tree{k}'"
+                elif how == 'option':
+                    # install_headers shows an option-derived directory without its placeholder (manual silent)
+                    it['install_dir'] = f'include/demo-tree{k}'
+                installs.append(it)
+    return projgen.normalize({'name': 'ppm', 'lang': '', 'installs': installs})
+
+
 def to_trace(case: T.Dict[str, T.Any]) -> T.Dict[str, T.Any]:
     v = case['views']
     d = {'id': case['id'], 'p': case['p'], 'has_p': case['kind'] == 'proj', 'M': v['M']}
@@ -206,6 +229,8 @@ def main(chk: Check) -> None:
                      'run_tests': True, 'flavour': f'data#{k}', 'extra_args': [f'--prefix={pre}'] + option_overrides(p, r2)})
     jobs.append({'id': 'S0', 'kind': 'proj', 'p': subdir_matrix_project(), 'views': True, 'backend': 'none', 'install': True,
                  'run_tests': False, 'flavour': 'install_subdir-matrix', 'extra_args': ['--prefix=/usr/zz', '-Ddatadir=share/dd']})
+    jobs.append({'id': 'S1', 'kind': 'proj', 'p': preserve_path_project(), 'views': True, 'backend': 'none', 'install': True,
+                 'run_tests': False, 'flavour': 'preserve_path-matrix', 'extra_args': ['--prefix=/usr/zz']})
     dirs = bv.corpus_dirs()
     if len(dirs) > n_corpus:
         dirs = sorted(rnd.sample(dirs, n_corpus))
@@ -216,13 +241,14 @@ def main(chk: Check) -> None:
     with ProcessPoolExecutor(max_workers=common.NCPU) as ex:
         futs = [ex.submit(_run_job, j) for j in jobs]
         fam = model_check(chk, quick)
-        ok = [dict(p, family=f) for f in ('f1', 'f2', 'f3', 'f4') for p in fam[f] if not p['x']['collides']]
+        ok = [dict(p, family=f) for f in ('f1', 'f2', 'f3', 'f4', 'f5') for p in fam[f] if not p['x']['collides']]
         fjobs = []
         for k, p in enumerate(rnd.sample(ok, min(len(ok), n_family))):
             p.pop('x')
             family = p.pop('family')
             projgen.normalize(p)
-            p['unity'] = rnd.choice(['off', 'on'])
+            if family != 'f5':
+                p['unity'] = rnd.choice(['off', 'on'])
             fjobs.append({'id': f'A{k}', 'kind': 'proj', 'p': p, 'views': True, 'flavour': f'family-{family}#{k}'})
         futs += [ex.submit(_run_job, j) for j in fjobs]
         for f in futs:
